@@ -149,7 +149,7 @@ impl Enc<'_> {
         if !self.k.non_data_packets {
             return (false, 0);
         }
-        match self.ch.choose(&format!("extra-packet-{pos}"), 9) {
+        match self.ch.choose(&format!("extra-packet-{pos}"), 10) {
             0 => (false, 0),
             8 => {
                 // a run of packets that complete no point: index, ignored, empty data, ... (10 packets)
@@ -220,7 +220,8 @@ impl Enc<'_> {
                 (true, len)
             }
             k => {
-                let len = [0, 0, 4, 8, 64, 0, 1000][k];
+                // k = 9: the longest packet the 16-bit length field can describe (stored as 0xFFFF)
+                let len = [0, 0, 4, 8, 64, 0, 1000, 0, 0, 65536][k];
                 self.notes.push(format!("ignored packet of {len} bytes {pos}"));
                 self.log.push(2);
                 self.log.push(0);
